@@ -33,6 +33,8 @@ CLAIMS["C08"] = ("Coq theorems C08_*: generated Codabar / 2-of-5 tables = standa
 CLAIMS["C01"] = ("Coq theorem C01_roundtrip (closed, no axioms): for EVERY byte string, level, mode (Auto/Numeric/AlphaNumeric/Unicode) and each of the 8 masks for which the QR model returns a barcode, the ISO 18004 reference reader (size -> version, both BCH-valid format copies, version info, unmask, codewords in the spec's column-pair order, de-interleave, RS syndromes over GF(256)/285 at alpha^0.., segment parser, terminator/pad check) validates the pixels and returns exactly the content. Layers: the 160 generated version rows = ISO-derived table, format/version words = computed BCH/Golay words, alignment = Annex E, char counts; per-version layout (function modules, zig-zag = column-pair order, duplicate-free) for all 40 versions; mask predicates = Table 10 arithmetically; mode encoders / padding / block split+interleave / placement by induction. The mask choice is an oracle read from the implementation's output (penalty rules not modelled). Tied to the code by generated tables, exhaustive finite sub-domains through hooks, capacity-boundary contents, and the extracted reader run on the implementation's pixels.", "DESIGN.md §5 C01")
 CLAIMS["C14"] = ("Coq theorems C14_*: EAN CheckSum() = last digit of Content = GS1 check digit for all four input lengths; Code 128 CheckSum() = modulo-103 weighted sum and the drawn check character has that value; Code 39 CheckSum() = sum of values modulo 43 in every option mix and the drawn character (when requested) has that value; any chain of Scale calls leaves CheckSum() unchanged (via the C09 chain theorem). Tied to the code by a differential run over all three symbologies followed by 0..3 rounds of Scale, with the reference decoders reading the check character from the implementation's pixels.", "DESIGN.md §5 C14")
 
+CLAIMS["C03"] = ("Coq theorem C03_roundtrip (closed, no axioms): for EVERY payload (bytes, length < 2^57), percentage >= 0 (with hlbits*pct < 2^63, the range in which Go's int arithmetic agrees with Z) and layer request for which the Aztec model returns a barcode, the ISO 24778 reference reader (size, bullseye/orientation marks, GF(16) mode message and its agreement with the size, reference grid, spiral extraction, RS syndromes in the field of the word size, un-stuffing, Upper/Lower/Mixed/Punct/Digit/Binary-shift decoder) validates the pixels and returns exactly the payload, and an explicit layer request is honoured. Layers: generated char/latch/shift tables vs the ISO tables; the high-level state-list search decodes back for all byte strings (invariant over the search); stuffing; layout of all 36 configurations; RS validity via rs_encode_valid at the five ISO fields. Tied to the code by generated tables, bit-string and placement hooks, and the extracted reader run on the implementation's pixels.", "DESIGN.md §5 C03")
+
 ALL = ["C%02d" % i for i in range(1, 19)]
 
 
